@@ -89,6 +89,12 @@ static void run_script(const std::vector<std::string>& lines) {
             else if (op == "update") { world->update(); }
             else if (op == "setgroup") { int g, p; in >> g >> p; world->systems().setGroupPriority(g == 0 ? std::string{} : "g" + std::to_string(g), p); }
             else if (op == "teardown") { world.reset(); }
+            else if (op == "pause" || op == "resume" || op == "stop") {
+                // the user drives the lifecycle of a registered system directly (ASystem::pause / resume / stop are public)
+                int n; in >> n; std::shared_ptr<ASystem> target;
+                for (auto& [k, s] : systems) if (k == n) target = s;
+                if (target) { if (op == "pause") target->pause(*world); else if (op == "resume") target->resume(*world); else target->stop(*world); }
+            }
         } catch (const std::exception& e) { thrown = true; what = e.what(); }
         if (thrown) { printf("THROW\n"); fflush(stdout); break; }
         printf("E");
